@@ -89,7 +89,7 @@ def scenarios(tier, rng):
     add(S("", [P(1)], ["conn"], [{"p": "PUBLISH", "n": 1, "o": "cutAfter"}], dials=["ok"] + ["fail"] * 70, opts={"reconnBaseMs": 1, "reconnMaxMs": 2, "deadlineMs": 3000}))
     add(S("", [P(1)], ["pre"], [], dials=["fail"] * 70, opts={"reconnBaseMs": 1, "reconnMaxMs": 3, "deadlineMs": 3000}), hook=True)
     # seeded mixtures
-    n = 40 if tier == "quick" else 600
+    n = 40 if tier == "quick" else 2500
     for j in range(n):
         base = rng.choice([1, 2, 3, 5])
         mx = base * rng.choice([1, 2, 4, 8])
